@@ -279,6 +279,10 @@ class Program(object):
         if not os.environ.get("WV_NO_INLINE"):
             from . import inline
             trees = dict((n_, m_.tree) for n_, m_ in self.modules.items())
+            rens = dict((n_, m_.refactor_info["renamed_back"]) for n_, m_ in self.modules.items()
+                        if m_.refactor_info.get("renamed_back"))
+            if rens:
+                inline.apply_renames_across(trees, rens)
             across = inline.inline_across_modules(trees)
             for n_, callers in across.items():
                 self.modules[n_].refactor_info.setdefault("inlined_into", []).extend(callers)
